@@ -208,7 +208,7 @@ static WORLD: Lazy<World> = Lazy::new(|| World { i: build_doc(&M_I), j: build_do
 
 // ------------------------------------------------------------------------------------------ alphabets
 const SIG_N: usize = 4; // 0 by the key of the designated method, 1 by another key of I, 2 by the key of J's squatting twin of m1, 3 payload changed after signing
-const KIDS: [Option<&str>; 12] = [
+const KIDS: [Option<&str>; 13] = [
   Some("did:vx:issuer#m1"),
   Some("did:vx:issuer#m2"),
   Some("did:vx:issuer#m3"),
@@ -221,10 +221,20 @@ const KIDS: [Option<&str>; 12] = [
   Some("not a did url"),                // not a DID URL
   Some("did:vx:issuer?versionId=1#m1"), // OPEN: DID URL of m1 with an extra query
   Some("did:vx:issuer#m6"),
+  // I's DID with the fragment of the FOREIGN-DID method I's document lists: names no method (a lookup by fragment alone
+  // would find did:vx:foreign#m4; the token is signed with that method's key, see `designated`)
+  Some("did:vx:issuer#m4"),
 ];
-const KID_NAMES: [&str; 12] = ["m1", "m2", "m3", "m5", "m4-foreign", "j1", "unknown", "absent", "fragment-only", "garbage", "m1+query", "m6"];
-const OVERRIDES: [Option<&str>; 6] =
-  [None, Some("did:vx:issuer#m1"), Some("did:vx:issuer#m3"), Some("did:vx:foreign#m4"), Some("did:vx:jay#j1"), Some("did:vx:issuer#nosuch")];
+const KID_NAMES: [&str; 13] = ["m1", "m2", "m3", "m5", "m4-foreign", "j1", "unknown", "absent", "fragment-only", "garbage", "m1+query", "m6", "own-did+foreign-fragment"];
+const OVERRIDES: [Option<&str>; 7] = [
+  None,
+  Some("did:vx:issuer#m1"),
+  Some("did:vx:issuer#m3"),
+  Some("did:vx:foreign#m4"),
+  Some("did:vx:jay#j1"),
+  Some("did:vx:issuer#nosuch"),
+  Some("did:vx:issuer#m4"),
+];
 const SCOPE_NAMES: [&str; 7] =
   ["none", "assertionMethod", "authentication", "VerificationMethod", "keyAgreement", "capabilityDelegation", "capabilityInvocation"];
 const ISSUER_NAMES: [&str; 9] = ["I", "J", "other-did", "https-url", "I+path", "I-as-object", "J-as-object", "I+one-char", "I-less-one-char"];
@@ -649,8 +659,13 @@ fn expect(ch: &Ch) -> Expect {
     },
   };
   // the method of the world the token's author addresses (only used to pick the signing key)
+  // (if the URL names no method of the world: the method that shares its FRAGMENT, so that a lookup that is too
+  // lenient ends in an accepted token instead of a failed signature)
   let designated: Option<&MMethod> = match sel {
-    Sel::Url(u) | Sel::OpenAs(u) => M_I.methods.iter().chain(M_J.methods.iter()).find(|m| m.id == u),
+    Sel::Url(u) | Sel::OpenAs(u) => {
+      let all = || M_I.methods.iter().chain(M_J.methods.iter());
+      all().find(|m| m.id == u).or_else(|| u.split('#').nth(1).and_then(|f| all().find(|m| m.id.split('#').nth(1) == Some(f))))
+    }
     Sel::Missing => None,
   };
   let dkey = designated.map(|m| m.key).unwrap_or(K_M1);
